@@ -35,8 +35,18 @@ type SendScenario struct {
 	// DialFail: the n-th call of the dial function (1-based) fails without opening a connection
 	// (the client then tries its fallback port, if it has one).
 	DialFail int `json:"dialFail,omitempty"`
+	// CtxMs: when > 0 the caller's context carries a deadline of its own, CtxMs from the start
+	// of the call (DialWithContext / DialAndSendWithContext); otherwise context.Background().
+	CtxMs int `json:"ctxMs,omitempty"`
 	Sched     uint64 `json:"sched"`
 	Policy    sim.Policy `json:"policy,omitempty"`
+}
+
+func callCtx(sc *SendScenario) (context.Context, context.CancelFunc) {
+	if sc.CtxMs > 0 {
+		return context.WithTimeout(context.Background(), time.Duration(sc.CtxMs)*time.Millisecond)
+	}
+	return context.Background(), func() {}
 }
 
 // MsgState is what the caller can see on a Msg after the call.
@@ -186,7 +196,7 @@ func execSendHook(t *testing.T, sc *SendScenario, logger mlog.Logger, hook func(
 			}
 			switch sc.Op {
 			case "dial":
-				run.DialCall = env.Call("DialWithContext", func() error { return c.DialWithContext(context.Background()) })
+				run.DialCall = env.Call("DialWithContext", func() error { ctx, cancel := callCtx(sc); defer cancel(); return c.DialWithContext(ctx) })
 				if run.DialCall.Err == nil && run.DialCall.Panic == nil {
 					run.CloseCall = env.Call("Close", c.Close)
 				}
@@ -195,19 +205,33 @@ func execSendHook(t *testing.T, sc *SendScenario, logger mlog.Logger, hook func(
 				if len(run.Built) > 0 {
 					ms = msgsOf(run.Built[0])
 				}
-				run.SendCalls = append(run.SendCalls, env.Call("DialAndSend", func() error { return c.DialAndSend(ms...) }))
+				run.SendCalls = append(run.SendCalls, env.Call("DialAndSend", func() error {
+					if sc.CtxMs > 0 {
+						ctx, cancel := callCtx(sc)
+						defer cancel()
+						return c.DialAndSendWithContext(ctx, ms...)
+					}
+					return c.DialAndSend(ms...)
+				}))
 			case "dialandsend2":
 				// two DialAndSend calls on the same Client (the peer may behave differently)
 				for _, bs := range run.Built {
 					ms := msgsOf(bs)
-					call := env.Call("DialAndSend", func() error { return c.DialAndSend(ms...) })
+					call := env.Call("DialAndSend", func() error {
+					if sc.CtxMs > 0 {
+						ctx, cancel := callCtx(sc)
+						defer cancel()
+						return c.DialAndSendWithContext(ctx, ms...)
+					}
+					return c.DialAndSend(ms...)
+				})
 					run.SendCalls = append(run.SendCalls, call)
 					if !call.Returned {
 						break
 					}
 				}
 			case "send":
-				run.DialCall = env.Call("DialWithContext", func() error { return c.DialWithContext(context.Background()) })
+				run.DialCall = env.Call("DialWithContext", func() error { ctx, cancel := callCtx(sc); defer cancel(); return c.DialWithContext(ctx) })
 				if run.DialCall.Err == nil && run.DialCall.Panic == nil && run.DialCall.Returned {
 					for _, bs := range run.Built {
 						ms := msgsOf(bs)
@@ -220,7 +244,7 @@ func execSendHook(t *testing.T, sc *SendScenario, logger mlog.Logger, hook func(
 					run.CloseCall = env.Call("Close", c.Close)
 				}
 			case "reset":
-				run.DialCall = env.Call("DialWithContext", func() error { return c.DialWithContext(context.Background()) })
+				run.DialCall = env.Call("DialWithContext", func() error { ctx, cancel := callCtx(sc); defer cancel(); return c.DialWithContext(ctx) })
 				if run.DialCall.Err == nil && run.DialCall.Panic == nil && run.DialCall.Returned {
 					run.SendCalls = append(run.SendCalls, env.Call("Reset", c.Reset))
 					run.CloseCall = env.Call("Close", c.Close)
